@@ -249,7 +249,7 @@ func runModHex(c *core.Ctx) {
 		emitModHex(c, "modhex-no-extension", []pkix.Extension{ext(id, []byte{2, 4, 1, 2, 3, 4})})
 	}
 	// several extensions, possibly several matching ones
-	for i, m := 0, c.N(150, 4000); i < m; i++ {
+	for i, m := 0, c.N(150, 2500); i < m; i++ {
 		n := r.Intn(5)
 		var exts []pkix.Extension
 		for j := 0; j < n; j++ {
@@ -628,7 +628,7 @@ func runScalars(c *core.Ctx) {
 				new(big.Int).Add(half, big.NewInt(d)), new(big.Int).Neg(new(big.Int).Add(half, big.NewInt(d))))
 		}
 	}
-	for i, n := 0, c.N(150, 3000); i < n; i++ {
+	for i, n := 0, c.N(150, 2000); i < n; i++ {
 		b := make([]byte, 1+r.Intn(24))
 		r.Read(b)
 		z := new(big.Int).SetBytes(b)
@@ -682,7 +682,7 @@ func runScalars(c *core.Ctx) {
 		c.Case(class, core.GApp("CTime", core.GN(uint64(tag)), gBytes(content), g),
 			map[string]interface{}{"op": "asn1.Unmarshal(time)", "tag": tag, "content": string(content), "err": fmt.Sprint(err)})
 	}
-	for i, n := 0, c.N(150, 3000); i < n; i++ {
+	for i, n := 0, c.N(150, 2000); i < n; i++ {
 		y := 1950 + r.Intn(100)
 		if r.Intn(4) == 0 {
 			y = core.Pick(r, 1950, 1969, 1970, 1999, 2000, 2038, 2049)
@@ -1336,7 +1336,7 @@ func runPEM(c *core.Ctx, all []genCert) {
 		emit("pem-bundle-leading-text", append([]byte(texts[0]), data...), ids, n == 0)
 	}
 	// random bundles
-	for i, m := 0, c.N(80, 3000); i < m; i++ {
+	for i, m := 0, c.N(80, 2000); i < m; i++ {
 		var data []byte
 		var ids []int
 		refuse := false
@@ -1404,7 +1404,7 @@ func runPEM(c *core.Ctx, all []genCert) {
 	// bytes.TrimSpace emptiness against Model.Pem.is_blank
 	atoms := []string{" ", "\t", "\n", "\v", "\f", "\r", "\u0085", "\u00a0", "\u1680", "\u2000", "\u2005", "\u200a", "\u2028", "\u2029", "\u202f",
 		"\u205f", "\u3000", " \n", "\u200b", "\u3001", "\ufeff", "\u180e", "\u2060", "a", "\x00", "\x1c", "\x1f", "\xc2", "\xc2\x84", "\xc2\xa1", "\xe2\x80", "\xe2\x80\x8b", "\xe2\x80\x7f", "\xe1\x9a", "\xe1\x9a\x81", "\xc0\xa0", "\xe0\x80\xa0", "\x85", "\xa0", "\xe3\x80\x81", "\xe2\x81\x9e", "\xe2\x80\xaa"}
-	for i, m := 0, c.N(250, 5000); i < m; i++ {
+	for i, m := 0, c.N(250, 3000); i < m; i++ {
 		var b []byte
 		for j, n := 0, r.Intn(5); j < n; j++ {
 			if r.Intn(3) == 0 {
@@ -1515,7 +1515,7 @@ func runDER(c *core.Ctx) {
 			}
 		}
 	}
-	for i, m := 0, c.N(250, 6000); i < m; i++ {
+	for i, m := 0, c.N(250, 4000); i < m; i++ {
 		emitTree("der-random-tree", genNode(r, 3))
 	}
 	// one-level parses of arbitrary / damaged encodings against asn1.Unmarshal(RawValue)
@@ -1536,7 +1536,7 @@ func runDER(c *core.Ctx) {
 		b, _ := hex.DecodeString(h)
 		emitParse("der-parse-fixed", b)
 	}
-	for i, m := 0, c.N(300, 8000); i < m; i++ {
+	for i, m := 0, c.N(300, 5000); i < m; i++ {
 		enc := genNode(r, 2).marshal()
 		switch i % 4 {
 		case 0:
@@ -1570,7 +1570,7 @@ func runDER(c *core.Ctx) {
 		{1, 2, 840, 113549, 2, 5}, serialOID, {1, 2, 840, 113549, 1, 1, 1}, {0, 0}, {2, 39}, {2, 40}, {2, 999, 3}, {1, 39, 127, 128, 16383, 16384, 2097151, 2097152, 268435455, 268435456, 2147483647}} {
 		emitOID(o)
 	}
-	for i, m := 0, c.N(100, 3000); i < m; i++ {
+	for i, m := 0, c.N(100, 2000); i < m; i++ {
 		a := r.Intn(3)
 		b := r.Intn(40)
 		if a == 2 && r.Intn(2) == 0 {
